@@ -47,6 +47,17 @@
 (*  PadAgree       on tables whose sets start at multiples of their tuple  *)
 (*                 size, padding measured from the section start equals    *)
 (*                 padding measured from the set start                     *)
+(*  OriginFree     ... and a byte-level reader that measures from the      *)
+(*                 OTHER origin recovers the same table (Lookup_sim and    *)
+(*                 Lookup_unaligned*.cfg; PadAgree is its arithmetic form) *)
+(*  OriginMatters  (Lookup_unaligned*.cfg) conversely NO table with a      *)
+(*                 tuple in a set that starts off its tuple alignment is   *)
+(*                 recovered by the reader of the other origin: such bytes *)
+(*                 have no origin-independent meaning                      *)
+(*  NmPolicies     names published more than once: first-wins and          *)
+(*                 last-wins are selections of one occurrence per name,    *)
+(*                 equal iff no name repeats; the order facts NmPrec hold  *)
+(*                 for both and are the full encoded order iff no repeat   *)
 (*  NmRoundTrip    byte-level name-set walker (header at the offset derived *)
 (*                 from the previous unit_length, entries up to the        *)
 (*                 terminator) = view; the bytes between each terminator   *)
@@ -69,18 +80,56 @@
 (*                                                                         *)
 (* Deliberately not asserted / outside the model:                          *)
 (*  - sets that start at an offset that is not a multiple of their tuple   *)
-(*    size (only possible when address sizes are mixed in one section):    *)
-(*    6.1.2 says "an offset that is a multiple of the size of a single     *)
-(*    tuple" without naming the origin; binutils, LLVM, elfutils and GCC   *)
-(*    measure from the set start, the library measures from the section    *)
-(*    start.  Unaligned = FALSE keeps every generated set aligned, where   *)
-(*    both readings coincide (PadAgree).  Lookup_unaligned.cfg (not part   *)
-(*    of any tier; C13_UNALIGNED=1) generates them under tag "unaligned"   *)
-(*    with the set-relative reading, for whoever wants to judge it.        *)
+(*    size (only possible when address sizes are mixed in one section: a   *)
+(*    4-byte set with an even number of tuples followed by an 8-byte set). *)
+(*    DWARF 2 6.1.2, DWARF 3/4 6.1.2, DWARF 5 6.1.2/7.21 all say the first *)
+(*    tuple "begins at an offset that is a multiple of the size of a       *)
+(*    single tuple ... The header is padded, if necessary, to that         *)
+(*    boundary" and none names the origin of that offset.  Producers (GCC  *)
+(*    DWARF_ARANGES_PAD_SIZE, gas, LLVM) pad the 12-byte header to the     *)
+(*    tuple size, i.e. from the SET start; binutils readelf (hdrptr -      *)
+(*    start of the set), LLVM (which moreover rejects a set whose length   *)
+(*    is not a multiple of the tuple size, as every section-relative       *)
+(*    off-grid set is), elfutils and libdwarf read from the set start;     *)
+(*    GDB and the library read from the SECTION start.  With one address   *)
+(*    size per section every set length is a multiple of the tuple size    *)
+(*    and the readings coincide (PadAgree, OriginFree); off the grid they  *)
+(*    never do (OriginMatters), so whatever is asserted there takes a side *)
+(*    the standard does not take: a library that switches from one reading *)
+(*    to the other (seed C13-r4-1 switches it to binutils') still has the  *)
+(*    property as stated.  Per-set address sizes ARE enumerated (contexts  *)
+(*    mix, mix2: 8/4/8, 4/8/4) wherever the two readings agree.  Outside   *)
+(*    the tiers, for whoever judges one reading to be fixed: C13_UNALIGNED *)
+(*    =section (Lookup_unaligned_section.cfg, org = "section": green on    *)
+(*    the library, aranges.parse/entries/cu_offset_at_addr:unaligned on a  *)
+(*    set-relative reader) and C13_UNALIGNED=set (Lookup_unaligned.cfg,    *)
+(*    the converse).                                                       *)
 (*  - order of ARanges.entries (compared as a bag), 64-bit format tables,  *)
 (*    segmented tables, overlapping or zero-length ranges.                 *)
-(*  - duplicate names in one table (tag "dup"): only key set / membership  *)
-(*    of the value in the encoded candidates is asserted.                  *)
+(*  - WHICH occurrence a name published more than once maps to (tag        *)
+(*    "dup"; pools PoolABA/Pool1/PoolMix/Pool2 enumerate the collision     *)
+(*    patterns inside one set and across sets).  6.1.1 allows every set to *)
+(*    publish any name (every unit of a real .debug_pubtypes publishes     *)
+(*    "int"); the property says "map every encoded name to its unit offset *)
+(*    and absolute entry offset", which a one-slot-per-name map can do for *)
+(*    one occurrence only and does not say which.  namelut.py's docstrings *)
+(*    (the documented API) say "basically a dictionary where the key is    *)
+(*    the symbol name, and the value is the tuple (cu_offset, die_offset)  *)
+(*    corresponding to the variable", "an ordered dictionary is used to    *)
+(*    preserve the CU order (items are stored on a per-CU basis as         *)
+(*    originally in the section)" with a groupby(cu_ofs) example: nothing  *)
+(*    about last-one-wins; if anything the per-CU grouping promise is kept *)
+(*    by a first-one-wins map (values in encoded order) and broken by the  *)
+(*    present last-one-wins map (first slot, last value).  So asserted for *)
+(*    dup tables is only what holds under every policy: key set, number of *)
+(*    keys (nk), order facts NmPrec, value = one encoded occurrence (cu    *)
+(*    and entry offset of the SAME occurrence), the same value through     *)
+(*    items / [] / get on one object, that occurrence's DIE, set headers.  *)
+(*    Seed C13-r4-2 (setdefault: first wins) keeps all of it and is not    *)
+(*    reported; the policy the library follows is counted in the evidence  *)
+(*    (dup_policy_observed) and C13_DUP_POLICY=last|first asserts one      *)
+(*    (clause pubnames/pubtypes.dup-policy:dup) for whoever judges it      *)
+(*    fixed.                                                               *)
 (*  - what an out-of-range unit lookup raises (only "no unit").            *)
 (***************************************************************************)
 EXTENDS DwarfForms, TLC, Json, CSV, IOUtils
@@ -105,7 +154,12 @@ AllZero(d) == \A i \in 1..Len(d) : d[i] = 0
 \* Context: [id, aszs (address size of set k), le, hi (digits 2..4), hi8 (digits 5..8), pad (padding byte), mt (max tuples), ms (max sets)]
 Z3 == <<0, 0, 0>>
 Z4 == <<0, 0, 0, 0>>
-ArCtx(id, aszs, le, hi, hi8, pad, mt, ms) == [id |-> id, aszs |-> aszs, le |-> le, hi |-> hi, hi8 |-> hi8, pad |-> pad, mt |-> mt, ms |-> ms]
+\* org: the origin from which "an offset that is a multiple of the size of a single tuple" (6.1.2/7.21) is measured by the writer:
+\*      "set" (start of the set; what GCC, gas, LLVM emit and binutils readelf, LLVM, elfutils, libdwarf read) or
+\*      "section" (start of .debug_aranges; what GDB and the library read).  The two coincide on every set that starts at a
+\*      multiple of its tuple size (PadAgree) and on no other set that has a tuple (OriginMatters).
+ArCtxO(id, aszs, le, hi, hi8, pad, mt, ms, org) == [id |-> id, aszs |-> aszs, le |-> le, hi |-> hi, hi8 |-> hi8, pad |-> pad, mt |-> mt, ms |-> ms, org |-> org]
+ArCtx(id, aszs, le, hi, hi8, pad, mt, ms) == ArCtxO(id, aszs, le, hi, hi8, pad, mt, ms, "set")
 QuickArCtxs == { ArCtx("le8", <<8, 8, 8>>, TRUE, Z3, Z4, 0, 4, 2),
                  ArCtx("le4hi", <<4, 4, 4>>, TRUE, <<0, 0, 128>>, Z4, 0, 3, 3),
                  ArCtx("be8top", <<8, 8, 8>>, FALSE, Z3, <<0, 0, 0, 128>>, 0, 2, 3),
@@ -118,6 +172,11 @@ ThoroughArCtxs == { ArCtx("le8", <<8, 8, 8>>, TRUE, Z3, Z4, 0, 4, 3),
                     ArCtx("mix", <<8, 4, 8>>, TRUE, <<0, 0, 128>>, Z4, 0, 4, 3),
                     ArCtx("mix2", <<4, 8, 4>>, FALSE, <<0, 16, 0>>, Z4, 0, 3, 3) }
 UnalignedArCtxs == { ArCtx("mix", <<4, 8, 4>>, TRUE, Z3, Z4, 0, 2, 3), ArCtx("mixbe", <<4, 4, 8>>, FALSE, <<0, 0, 128>>, Z4, 0, 2, 3) }
+\* the same (one more tuple, so that a 4-byte set with two tuples can be followed by a non-empty 8-byte set) written with the
+\* section-relative reading; non-zero padding bytes in one context
+UnalignedSecArCtxs == { ArCtxO("mix", <<4, 8, 4>>, TRUE, Z3, Z4, 0, 3, 3, "section"),
+                        ArCtxO("mixbe", <<4, 4, 8>>, FALSE, <<0, 0, 128>>, Z4, 170, 3, 3, "section"),
+                        ArCtxO("mix848", <<8, 4, 8>>, TRUE, Z3, Z4, 0, 3, 3, "section") }
 SimArCtxs == { ArCtx("le8", <<8, 8, 8, 8>>, TRUE, Z3, Z4, 0, 6, 4),
                ArCtx("be4hi", <<4, 4, 4, 4>>, FALSE, <<0, 0, 128>>, Z4, 0, 6, 4),
                ArCtx("mix", <<8, 4, 4, 8>>, TRUE, <<0, 0, 128>>, Z4, 0, 6, 4) }
@@ -170,33 +229,42 @@ OpCuAt(es, a) ==                          \* es = SortByBegin(ArFlat(t))
   IN IF i = 0 THEN 0 ELSE IF es[i].b <= a /\ a < es[i].b + es[i].l THEN es[i].k ELSE 0
 
 \* ---- encoder (32-bit format): unit_length, version 2, debug_info_offset, address_size, segment_selector_size 0,
-\*      padding to a multiple of the tuple size from the start of the set, tuples, (0,0)
+\*      padding to a multiple of the tuple size from the context's origin (c.org), tuples, (0,0)
 ArHdrLen == 12
 TupSize(asz) == 2 * asz
-FirstTupleRel(asz) == RoundUp(ArHdrLen, TupSize(asz))
-EncArSet(s, k, c) ==
+FirstTupleRel(asz) == RoundUp(ArHdrLen, TupSize(asz))                           \* origin = start of the set
+\* offset of the first tuple from the start of a set that starts at section offset so, under either origin
+FirstTupleAt(so, asz, org) == IF org = "section" THEN RoundUp(so + ArHdrLen, TupSize(asz)) - so ELSE FirstTupleRel(asz)
+OtherOrg(org) == IF org = "section" THEN "set" ELSE "section"
+ArSetLenAt(so, n, asz, org) == FirstTupleAt(so, asz, org) + TupSize(asz) * (n + 1)
+\* sizes by arithmetic (ArRoundTrip checks them against the encoder)
+RECURSIVE ArSetOff(_, _, _)
+ArSetOff(t, k, c) == IF k = 1 THEN 0
+                     ELSE LET so == ArSetOff(t, k - 1, c) IN so + ArSetLenAt(so, Len(t[k - 1]), c.aszs[k - 1], c.org)
+ArSetLenK(t, k, c) == ArSetLenAt(ArSetOff(t, k, c), Len(t[k]), c.aszs[k], c.org)
+EncArSet(s, k, c, so) ==
   LET asz == c.aszs[k]
-      body == Fix(N(2), 2, c.le) \o Fix(CuVals[k], 4, c.le) \o <<asz, 0>> \o Rep(c.pad, FirstTupleRel(asz) - ArHdrLen)
+      body == Fix(N(2), 2, c.le) \o Fix(CuVals[k], 4, c.le) \o <<asz, 0>> \o Rep(c.pad, FirstTupleAt(so, asz, c.org) - ArHdrLen)
               \o Flat([i \in 1..Len(s) |-> Fix(AddrV(s[i].b, c), asz, c.le) \o Fix(N(s[i].l), asz, c.le)])
               \o Rep(0, TupSize(asz))
   IN Fix(N(Len(body)), 4, c.le) \o body
-EncAr(t, c) == Flat([k \in 1..Len(t) |-> EncArSet(t[k], k, c)])
-\* sizes by arithmetic (ArRoundTrip checks them against the encoder)
-ArSetLen(n, asz) == FirstTupleRel(asz) + TupSize(asz) * (n + 1)
-ArSetOff(t, k, c) == SumTo([j \in 1..Len(t) |-> ArSetLen(Len(t[j]), c.aszs[j])], k - 1)
+EncAr(t, c) == Flat([k \in 1..Len(t) |-> EncArSet(t[k], k, c, ArSetOff(t, k, c))])
 ArAligned(t, c) == \A k \in 1..Len(t) : (ArSetOff(t, k, c) % TupSize(c.aszs[k])) = 0
+\* sets that start off their tuple alignment and carry at least one tuple
+ArOffGrid(t, c) == {k \in 1..Len(t) : (ArSetOff(t, k, c) % TupSize(c.aszs[k])) # 0 /\ Len(t[k]) > 0}
 
 \* ---- views
 \* per set: <<unit_length, version, address_size, segment_size, debug_info_offset>>
-ArSetView(t, c) == [k \in 1..Len(t) |-> <<ArSetLen(Len(t[k]), c.aszs[k]) - 4, 2, c.aszs[k], 0, CuVals[k]>>]
+ArSetView(t, c) == [k \in 1..Len(t) |-> <<ArSetLenK(t, k, c) - 4, 2, c.aszs[k], 0, CuVals[k]>>]
 \* per tuple in encoded order, by digits (for the round trip)
 ArEntriesD(t, c) ==
   LET sv == ArSetView(t, c)   f == ArFlat(t) IN
   [i \in 1..Len(f) |-> LET asz == c.aszs[f[i].k] IN
      <<Digits(AddrV(f[i].b, c), asz), Digits(N(f[i].l), asz), Digits(CuVals[f[i].k], 4), sv[f[i].k][1], 2, asz, 0>>]
 
-\* ---- byte-level reader: walks sets by unit_length, tuples up to the terminator
-ReadAr(bs, le) ==
+\* ---- byte-level reader: walks sets by unit_length, tuples up to the terminator; org = origin of the tuple alignment.
+\*      A reader that runs off the section before it meets a terminator reports end = -1 (and is not tight).
+ReadAr(bs, le, org) ==
   LET RECURSIVE RdSets(_, _, _)
       RdSets(off, acc, tight) ==
         IF off >= Len(bs) THEN [es |-> acc, end |-> off, tight |-> tight]
@@ -207,11 +275,12 @@ ReadAr(bs, le) ==
                  seg == bs[off + 12]
                  RECURSIVE RdTup(_, _)
                  RdTup(p, acc2) ==
+                   IF p + 2 * asz > Len(bs) THEN [end |-> -1, es |-> acc2] ELSE
                    LET a == FixDec(Slice(bs, p + 1, asz), le, FALSE).d
                        l == FixDec(Slice(bs, p + asz + 1, asz), le, FALSE).d
                    IN IF AllZero(a) /\ AllZero(l) THEN [end |-> p + 2 * asz, es |-> acc2]
                       ELSE RdTup(p + 2 * asz, Append(acc2, <<a, l, cu, ulen, ver, asz, seg>>))
-                 r == RdTup(off + RoundUp(ArHdrLen, 2 * asz), <<>>)
+                 r == RdTup(off + FirstTupleAt(off, asz, org), <<>>)
              IN RdSets(off + 4 + ulen, acc \o r.es, tight /\ r.end = off + 4 + ulen)
   IN RdSets(0, <<>>, TRUE)
 
@@ -323,6 +392,14 @@ Pool7 == << <<109, 97, 105, 110>>,                     \* main
             <<240, 159, 152, 128>>,                    \* U+1F600 (4-byte sequence)
             <<95, 90, 49, 102, 118>> >>                \* _Z1fv
 Pool2 == << <<105, 110, 116>>, <<195, 169>> >>         \* int, U+00E9: fewer names than entries -> duplicates
+\* pools in which names repeat: the g-th entry is named pool[(g + rot) % Len(pool) + 1], so a pool IS a collision pattern and its
+\* rotations move the colliding positions; the writer splits the entries over the sets in every way, so every pattern occurs
+\* inside one set and across two or three sets (each unit publishing "int", as compilers do in .debug_pubtypes)
+NmInt == <<105, 110, 116>>                             \* int
+NmEac == <<195, 169>>                                  \* U+00E9
+PoolABA == <<NmInt, NmEac, NmInt>>                     \* rot 0: A B A   rot 1: B A A   rot 2: A A B
+Pool1 == <<NmInt>>                                     \* every entry publishes the same name
+PoolMix == << <<109, 97, 105, 110>>, <<230, 151, 165, 230, 156, 172>>, <<109, 97, 105, 110>>, <<97>> >>   \* main U+65E5U+672C main a
 NmParP(sec, rot, pool, pads, align, padb) == [sec |-> sec, rot |-> rot, pool |-> pool, pads |-> pads, align |-> align, padb |-> padb]
 NmPar(sec, rot, pool) == NmParP(sec, rot, pool, <<0, 0, 0, 0>>, 1, 0)
 \* padded contexts: odd paddings per set position; every set padded to a multiple of 4 / 8; paddings as long as / longer than
@@ -331,9 +408,12 @@ PaddedNmParsQ == {NmParP("S1", 2, Pool7, <<1, 2, 3, 1>>, 1, 0), NmParP("S2", 1, 
                   NmParP("S3", 4, Pool7, <<4, 7, 0, 0>>, 1, 170)}
 PaddedNmParsT == PaddedNmParsQ \cup {NmParP("S4", 0, Pool7, <<0, 0, 0, 0>>, 8, 0), NmParP("S6", 3, Pool7, <<3, 0, 5, 2>>, 1, 255),
                                      NmParP("S1", 0, Pool2, <<0, 1, 0, 0>>, 4, 0), NmParP("S2", 2, Pool7, <<4, 4, 4, 4>>, 1, 0)}
-QuickNmPars == {NmPar("S1", 0, Pool7), NmPar("S3", 3, Pool7), NmPar("S2", 5, Pool7), NmPar("S1", 0, Pool2)} \cup PaddedNmParsQ
+DupNmParsQ == {NmPar("S1", 0, PoolABA), NmPar("S2", 1, PoolABA), NmPar("S3", 2, PoolABA), NmPar("S3", 0, Pool1)}
+DupNmParsT == DupNmParsQ \cup {NmPar("S4", 2, PoolABA), NmPar("S6", 0, PoolMix), NmPar("S2", 1, PoolMix), NmPar("S1", 0, Pool1),
+                               NmParP("S3", 2, PoolMix, <<1, 0, 3, 0>>, 4, 0)}
+QuickNmPars == {NmPar("S1", 0, Pool7), NmPar("S3", 3, Pool7), NmPar("S2", 5, Pool7), NmPar("S1", 0, Pool2)} \cup PaddedNmParsQ \cup DupNmParsQ
 ThoroughNmPars == {NmPar("S1", 0, Pool7), NmPar("S2", 3, Pool7), NmPar("S3", 5, Pool7), NmPar("S4", 1, Pool7), NmPar("S6", 4, Pool7),
-                   NmPar("S2", 6, Pool7), NmPar("S1", 0, Pool2), NmPar("S4", 1, Pool2)} \cup PaddedNmParsT
+                   NmPar("S2", 6, Pool7), NmPar("S1", 0, Pool2), NmPar("S4", 1, Pool2)} \cup PaddedNmParsT \cup DupNmParsT
 
 NmTotal(t) == SumTo([s \in 1..Len(t) |-> Len(t[s].ents)], Len(t))
 NmBefore(t, s) == SumTo([j \in 1..Len(t) |-> Len(t[j].ents)], s - 1)
@@ -362,6 +442,17 @@ NmHdrs(t, p) ==
   LET S == SecTab[p.sec] IN
   [s \in 1..Len(t) |-> <<Len(EncNmSet(t, s, p)) - 4, 2, S.offs[t[s].u], S.sizes[t[s].u]>>]
 NmDistinct(t, p) == LET v == NmView(t, p) IN \A i, j \in 1..Len(v) : i # j => v[i][1] # v[j][1]
+\* ---- names published more than once.  6.1.1 lets every set publish any name; what a name -> entry MAP holds for such a name
+\*      is a choice among its encoded occurrences (v = NmView):
+NmNamesOf(v) == {v[i][1] : i \in 1..Len(v)}
+NmOcc(v, x) == {i \in 1..Len(v) : v[i][1] = x}
+LoOf(S) == CHOOSE i \in S : \A j \in S : i <= j
+HiOf(S) == CHOOSE i \in S : \A j \in S : i >= j
+NmIsFirst(v) == [i \in 1..Len(v) |-> i = LoOf(NmOcc(v, v[i][1]))]         \* the occurrence a first-one-wins map keeps
+NmIsLast(v) == [i \in 1..Len(v) |-> i = HiOf(NmOcc(v, v[i][1]))]          \* the occurrence a last-one-wins map keeps
+\* "preserving encoded order" for a map with one slot per name: x comes before y whenever EVERY occurrence of x is encoded
+\* before EVERY occurrence of y (true whichever occurrence the map keeps and wherever it files it)
+NmPrec(v) == {pr \in NmNamesOf(v) \X NmNamesOf(v) : pr[1] # pr[2] /\ HiOf(NmOcc(v, pr[1])) < LoOf(NmOcc(v, pr[2]))}
 
 \* byte-level reader
 ReadNm(bs, le) ==
@@ -461,7 +552,7 @@ Spec == Init /\ [][Next]_vars
 
 (* ------------------------------ emission ------------------------------- *)
 Out(x) == CSVWrite("%1$s", <<ToJson(x)>>, IOEnv.OUT)
-ArCtxLine == [k |-> "arctx", id |-> par.id, le |-> par.le, aszs |-> par.aszs,
+ArCtxLine == [k |-> "arctx", id |-> par.id, le |-> par.le, aszs |-> par.aszs, org |-> par.org,
               qa |-> [a \in 1..(GridMax + 2) |-> AddrV(a - 1, par)],               \* qa[a + 1] = address of grid point a
               below |-> FarBelow(par), above |-> FarAbove(par)]
 ArCase ==
@@ -475,10 +566,15 @@ ArCase ==
    ent |-> [i \in 1..Len(f) |-> <<f[i].b, f[i].l, f[i].k>>]]
 SecLine(S) == [k |-> "sec", id |-> S.id, le |-> S.le, info |-> S.bytes, abbrev |-> S.abbrev, offs |-> S.offs, sizes |-> S.sizes,
                dies |-> S.dies]
-NmCase == [k |-> "nm", sec |-> par.sec,
-           tag |-> (IF NmDistinct(obj, par) THEN (IF obj = <<>> THEN "nosets" ELSE "names") ELSE "dup")
-                   \o (IF NmPadded(obj, par) THEN "+pad" ELSE ""),
-           b |-> EncNm(obj, par), names |-> NmView(obj, par), hdrs |-> NmHdrs(obj, par)]
+NmCase ==
+  LET v == NmView(obj, par)   dist == \A i, j \in 1..Len(v) : i # j => v[i][1] # v[j][1] IN
+  [k |-> "nm", sec |-> par.sec,
+   tag |-> (IF dist THEN (IF obj = <<>> THEN "nosets" ELSE "names") ELSE "dup")
+           \o (IF NmPadded(obj, par) THEN "+pad" ELSE ""),
+   b |-> EncNm(obj, par), names |-> v, hdrs |-> NmHdrs(obj, par),
+   nk |-> Cardinality(NmNamesOf(v)),                          \* number of distinct names
+   prec |-> NmPrec(v),                                        \* order facts that hold under every policy
+   f1 |-> NmIsFirst(v), fl |-> NmIsLast(v)]                   \* occurrence kept by a first-wins / last-wins map
 HistCase == [k |-> "h", sec |-> par.sec, h |-> obj]
 Emit ==
   CASE mode = "aranges" -> (obj = <<>> => Out(ArCtxLine)) /\ Out(ArCase)
@@ -499,18 +595,46 @@ BisectEqDecl ==
     /\ \A a \in QGrid : OpCuAt(es, a) = CuAt(obj, a)
 ArRoundTrip ==
   mode = "aranges" =>
-    LET bs == EncAr(obj, par)   r == ReadAr(bs, par.le) IN
-    r.es = ArEntriesD(obj, par) /\ r.end = Len(bs) /\ r.tight /\ Len(bs) = ArSetOff(obj, Len(obj) + 1, par)
+    LET bs == EncAr(obj, par)   r == ReadAr(bs, par.le, par.org) IN
+    /\ r.es = ArEntriesD(obj, par) /\ r.end = Len(bs) /\ r.tight /\ Len(bs) = ArSetOff(obj, Len(obj) + 1, par)
+    \* the first tuple of every set lies at a multiple of the tuple size from the writer's origin, at most one tuple after the header
+    /\ \A k \in 1..Len(obj) :
+         LET so == ArSetOff(obj, k, par)   ts == TupSize(par.aszs[k])   ft == FirstTupleAt(so, par.aszs[k], par.org) IN
+         /\ ((IF par.org = "section" THEN so + ft ELSE ft) % ts) = 0
+         /\ ArHdrLen <= ft /\ ft < ArHdrLen + ts
 PadAgree ==
   (mode = "aranges" /\ ~Unaligned) =>
     \A k \in 1..Len(obj) :
       LET so == ArSetOff(obj, k, par)   ts == TupSize(par.aszs[k]) IN
-      ArAligned(obj, par) /\ RoundUp(so + ArHdrLen, ts) = so + FirstTupleRel(par.aszs[k])
+      /\ ArAligned(obj, par) /\ RoundUp(so + ArHdrLen, ts) = so + FirstTupleRel(par.aszs[k])
+      /\ FirstTupleAt(so, par.aszs[k], "section") = FirstTupleAt(so, par.aszs[k], "set")
+\* ... and on aligned tables a reader of either persuasion recovers the table
+OriginFree ==
+  (mode = "aranges" /\ ArAligned(obj, par)) =>
+    LET bs == EncAr(obj, par)   r == ReadAr(bs, par.le, OtherOrg(par.org)) IN r.es = ArEntriesD(obj, par) /\ r.tight
+\* ... whereas NO table with a tuple in a set that starts off its tuple alignment means the same under both readings: the
+\* reader of the other persuasion never recovers it.  (This is why such tables are outside the tiers: their meaning depends on
+\* a choice the standard does not make.)
+OriginMatters ==
+  (mode = "aranges" /\ ArOffGrid(obj, par) # {}) =>
+    LET bs == EncAr(obj, par)   r == ReadAr(bs, par.le, OtherOrg(par.org)) IN r.es # ArEntriesD(obj, par)
 NmRoundTrip ==
   mode = "names" =>
     LET S == SecTab[par.sec]   bs == EncNm(obj, par)   r == ReadNm(bs, S.le)   v == NmView(obj, par) IN
     /\ r.names = [i \in 1..Len(v) |-> <<v[i][1], v[i][2], v[i][3]>>]
     /\ r.hdrs = NmHdrs(obj, par) /\ r.end = Len(bs) /\ r.slack = NmPads(obj, par)
+\* the two policies are selections of one occurrence per name; they are the same map exactly when no name repeats; the order
+\* facts NmPrec hold for the key order of both (keys filed at the kept occurrence), and are the whole encoded order when no
+\* name repeats (so the order clause for tables with repeats specialises to the exact clause for tables without)
+NmPolicies ==
+  mode = "names" =>
+    LET v == NmView(obj, par)   ns == NmNamesOf(v)   isf == NmIsFirst(v)   isl == NmIsLast(v)   pc == NmPrec(v)
+        F == {i \in 1..Len(v) : isf[i]}   L == {i \in 1..Len(v) : isl[i]}
+    IN /\ Cardinality(F) = Cardinality(ns) /\ Cardinality(L) = Cardinality(ns)
+       /\ {v[i][1] : i \in F} = ns /\ {v[i][1] : i \in L} = ns
+       /\ (F = L) <=> NmDistinct(obj, par)
+       /\ \A i, j \in F \cup L : <<v[i][1], v[j][1]>> \in pc => i < j
+       /\ NmDistinct(obj, par) => \A i, j \in 1..Len(v) : i < j => <<v[i][1], v[j][1]>> \in pc
 NmSetsTile ==
   mode = "names" =>
     LET hd == NmHdrs(obj, par)   pd == NmPads(obj, par)
